@@ -167,6 +167,14 @@ def run(ctx):
                     cmd = C.const_of(f, n["args"][1]) if len(n["args"]) > 1 else None
                     if cmd == 4:   # F_SETFL
                         r2.violation("%s:fcntl" % f.name, "fcntl(F_SETFL) outside ut_set_blocking", loc=f.loc(c))
+                elif x == "setsockopt" and len(n["args"]) > 3:
+                    lvl, opt = C.const_of(f, n["args"][1]), C.const_of(f, n["args"][2])
+                    if lvl == 1 and opt == 13:      # SOL_SOCKET, SO_LINGER
+                        r2.instance("%s:SO_LINGER" % f.qname)
+                        r2.violation("%s:SO_LINGER" % f.name, "SO_LINGER makes close() wait for unacknowledged data even on a non-blocking "
+                                     "descriptor: xcm_close() on a non-blocking socket would sleep", loc=f.loc(c))
+                    if lvl == 1 and opt in (20, 21):    # SO_RCVTIMEO / SO_SNDTIMEO are harmless on O_NONBLOCK descriptors
+                        pass
                 elif x == "SSL_set_bio":
                     r2.instance("%s:SSL_set_bio" % f.qname)
                     ok = True
